@@ -80,7 +80,9 @@ def scan(ctx, label, what, out, needles):
 
 def run(ctx):
     from joserfc import jws, jwe, jwt, rfc7797
-    from joserfc.jwk import KeySet
+    from joserfc.jwk import KeySet, ECKey, OKPKey
+    from joserfc.drafts.jwe_ecdh_1pu import register_ecdh_1pu
+    register_ecdh_1pu()
     rng = ctx.rng
     pop = KC.population(ctx) + KC.odd_shapes()
     all_jws = J.ALL_ALGS
@@ -139,29 +141,36 @@ def run(ctx):
             except Exception as e:  # noqa: BLE001
                 ctx.extra.setdefault("skipped", []).append(f"{label}:{alg}:{err_name(e)}")
         jwe_algs = {"oct": [], "RSA": ["RSA-OAEP", "RSA1_5"] if kt == "RSA" and key.raw_value.key_size >= 2048 else [],
-                    "EC": ["ECDH-ES", "ECDH-ES+A128KW"], "OKP": ["ECDH-ES", "ECDH-ES+A256KW"] if getattr(key, "curve_name", "") in ("X25519", "X448") else []}[kt]
+                    "EC": ["ECDH-ES", "ECDH-ES+A128KW", "ECDH-1PU", "ECDH-1PU+A128KW"],
+                    "OKP": ["ECDH-ES", "ECDH-ES+A256KW", "ECDH-1PU", "ECDH-1PU+A256KW"] if getattr(key, "curve_name", "") in ("X25519", "X448") else []}[kt]
         if kt == "oct":
             n = len(key.raw_value)
             jwe_algs = {16: ["A128KW", "dir", "A128GCMKW"], 32: ["A256KW", "PBES2-HS256+A128KW"], 64: ["PBES2-HS512+A256KW"]}.get(n, [])
         for alg in jwe_algs:
-            enc = "A128GCM" if alg == "dir" else rng.choice(["A128CBC-HS256", "A256GCM"])
+            enc = "A128GCM" if alg == "dir" else ("A128CBC-HS256" if "1PU+" in alg else rng.choice(["A128CBC-HS256", "A256GCM"]))
+            sender = None
+            if "1PU" in alg:
+                sender = (ECKey if kt == "EC" else OKPKey).generate_key(key.curve_name)
             try:
-                tok = jwe.encrypt_compact({"alg": alg, "enc": enc}, b"plaintext", key, algorithms=jwe_all)
+                tok = jwe.encrypt_compact({"alg": alg, "enc": enc}, b"plaintext", key, algorithms=jwe_all, sender_key=sender)
                 scan(ctx, label, f"jwe-compact:{alg}", tok, needles)
                 obj = jwe.GeneralJSONEncryption({"enc": enc}, b"plaintext")
                 obj.add_recipient({"alg": alg}, key)
-                out = jwe.encrypt_json(obj, None, algorithms=jwe_all)
+                out = jwe.encrypt_json(obj, None, algorithms=jwe_all, sender_key=sender)
                 scan(ctx, label, f"jwe-json:{alg}", out, needles)
                 if alg.startswith("ECDH"):
                     hdr = json.loads(base64.urlsafe_b64decode(tok.split(".")[0] + "=="))
-                    epk = hdr.get("epk", {})
-                    ctx.count("epk", (label, alg), True, kt)
-                    if PRIVATE_NAMES & set(epk):
-                        ctx.report("the ephemeral public key in the JWE header contains a private member", {"key": label, "epk": epk}, "epk:private-member")
-                    try:
-                        KC.reconstruct(epk)
-                    except KC.ShapeError as e:
-                        ctx.report(f"epk is not an RFC-conformant public JWK: {e}", {"key": label, "epk": epk}, "epk:shape")
+                    for where, epk in (("compact", hdr.get("epk", {})), ("json", (out["recipients"][0].get("header") or {}).get("epk", {}))):
+                        ctx.count("epk", (label, alg, where), True, kt)
+                        if not epk:
+                            ctx.report("a key-agreement JWE carries no epk", {"key": label, "alg": alg, "where": where}, "epk:missing")
+                        if PRIVATE_NAMES & set(epk):
+                            ctx.report(f"the ephemeral public key in the JWE header ({where}, {alg}) contains a private member",
+                                       {"key": label, "epk": epk, "alg": alg}, "epk:private-member")
+                        try:
+                            KC.reconstruct({k_: v_ for k_, v_ in epk.items() if k_ not in PRIVATE_NAMES})
+                        except KC.ShapeError as e:
+                            ctx.report(f"epk is not an RFC-conformant public JWK: {e}", {"key": label, "epk": epk}, "epk:shape")
             except Exception as e:  # noqa: BLE001
                 ctx.extra.setdefault("skipped", []).append(f"{label}:{alg}:{err_name(e)}")
     # --- key sets
